@@ -33,23 +33,24 @@ type Obligation struct {
 }
 
 type VC struct {
-	e        *Engine
-	fnName   string
-	decls    []string
-	asserts  []string
-	obligs   []*Obligation
-	nfresh   int
-	strIDs   map[string]int
-	strOrder []string
-	heapSort map[string]string // heap map name -> sort of the map
-	declared map[string]bool
-	typeIDs  map[string]int
-	modelVar map[string]string
-	counters map[string]int
-	usedExt  map[string]bool // assumed contracts used
-	notes    []string
-	globals  map[*ssa.Global]string
-	specDecl map[string]bool
+	e          *Engine
+	fnName     string
+	decls      []string
+	asserts    []string
+	obligs     []*Obligation
+	nfresh     int
+	strIDs     map[string]int
+	strOrder   []string
+	heapSort   map[string]string // heap map name -> sort of the map
+	declared   map[string]bool
+	typeIDs    map[string]int
+	modelVar   map[string]string
+	counters   map[string]int
+	usedExt    map[string]bool // assumed contracts used
+	notes      []string
+	globals    map[*ssa.Global]string
+	specDecl   map[string]bool
+	noDef      int
 	modelTerms []modelTerm
 	replay     *replayInfo
 }
@@ -77,7 +78,7 @@ func sanitizeSym(s string) string {
 	var b strings.Builder
 	for _, c := range s {
 		switch {
-		case c >= 'a' && c <= 'z', c >= 'A' && c <= 'Z', c >= '0' && c <= '9', c == '_', c == '.', c == '$', c == '#':
+		case c >= 'a' && c <= 'z', c >= 'A' && c <= 'Z', c >= '0' && c <= '9', c == '_', c == '.', c == '$':
 			b.WriteRune(c)
 		default:
 			b.WriteByte('_')
@@ -110,6 +111,9 @@ func (vc *VC) declareFun(name string, args []string, ret string) {
 
 // define a named abbreviation for term (keeps scripts linear in size)
 func (vc *VC) define(prefix, sort, term string) string {
+	if vc.noDef > 0 {
+		return term // inside a quantifier body: no top-level definitions over bound variables
+	}
 	if len(term) < 24 && !strings.Contains(term, " ") {
 		return term
 	}
@@ -120,7 +124,7 @@ func (vc *VC) define(prefix, sort, term string) string {
 
 // assume fact under reach condition pc
 func (vc *VC) assume(pc, fact string) {
-	if fact == "true" {
+	if fact == "true" || vc.noDef > 0 {
 		return
 	}
 	if pc == "true" {
